@@ -268,33 +268,6 @@ orc_x86_load_constants_outer (OrcX86Target *t, OrcCompiler *c)
   orc_compiler_emit_invariants (c);
   orc_x86_init_constants (t, c);
 
-  /* FIXME ldreslinb, ldreslinl, ldresnearb, ldresnearl
-   * are special opcodes that require more initialization
-   * but their flags are shared among more opcodes. These
-   * opcodes should have specific flags to proceed accordingly
-   */
-
-  {
-    for (int i = 0; i < c->n_insns; i++) {
-      OrcInstruction *insn = c->insns + i;
-      OrcStaticOpcode *opcode = insn->opcode;
-
-      if (strcmp (opcode->name, "ldreslinb") == 0
-          || strcmp (opcode->name, "ldreslinl") == 0
-          || strcmp (opcode->name, "ldresnearb") == 0
-          || strcmp (opcode->name, "ldresnearl") == 0) {
-        if (c->vars[insn->src_args[1]].vartype == ORC_VAR_TYPE_PARAM) {
-          orc_x86_emit_mov_memoffset_reg (c, 4,
-              (int)ORC_STRUCT_OFFSET (OrcExecutor, params[insn->src_args[1]]),
-              c->exec_reg, c->vars[insn->src_args[0]].ptr_offset);
-        } else {
-          orc_x86_emit_mov_imm_reg (c, 4,
-              c->vars[insn->src_args[1]].value.i,
-              c->vars[insn->src_args[0]].ptr_offset);
-        }
-      }
-    }
-  }
 }
 
 static void
@@ -322,6 +295,44 @@ orc_x86_load_constants_inner (OrcCompiler *c)
       default:
         orc_compiler_error (c, "bad vartype");
         break;
+    }
+  }
+
+  /* FIXME ldreslinb, ldreslinl, ldresnearb, ldresnearl
+   * are special opcodes that require more initialization
+   * but their flags are shared among more opcodes. These
+   * opcodes should have specific flags to proceed accordingly
+   */
+
+  /* The resampling rules keep the integer part of the position in the
+   * source pointer and only the 16-bit fraction in ptr_offset.  Start both
+   * from the initial position at the beginning of every row. */
+  for (i = 0; i < c->n_insns; i++) {
+    OrcInstruction *insn = c->insns + i;
+    OrcStaticOpcode *opcode = insn->opcode;
+
+    if (strcmp (opcode->name, "ldreslinb") == 0
+        || strcmp (opcode->name, "ldreslinl") == 0
+        || strcmp (opcode->name, "ldresnearb") == 0
+        || strcmp (opcode->name, "ldresnearl") == 0) {
+      OrcVariable *src = c->vars + insn->src_args[0];
+      int shift = 0;
+
+      while ((1 << shift) < src->size) shift++;
+
+      if (c->vars[insn->src_args[1]].vartype == ORC_VAR_TYPE_PARAM) {
+        orc_x86_emit_mov_memoffset_reg (c, 4,
+            (int)ORC_STRUCT_OFFSET (OrcExecutor, params[insn->src_args[1]]),
+            c->exec_reg, src->ptr_offset);
+      } else {
+        orc_x86_emit_mov_imm_reg (c, 4,
+            c->vars[insn->src_args[1]].value.i, src->ptr_offset);
+      }
+      orc_x86_emit_mov_reg_reg (c, 4, src->ptr_offset, c->gp_tmpreg);
+      orc_x86_emit_sar_imm_reg (c, 4, 16, c->gp_tmpreg);
+      orc_x86_emit_add_reg_reg_shift (c, c->is_64bit ? 8 : 4, c->gp_tmpreg,
+          src->ptr_register, shift);
+      orc_x86_emit_and_imm_reg (c, 4, 0xffff, src->ptr_offset);
     }
   }
 }
